@@ -39,6 +39,9 @@ FACTS = [
     ("claimsHeaderName", CONST, r'pub const CLAIMS_HEADER\s*:\s*&str\s*=\s*"([^"]*)"\s*;', "str", "x-ms-azure-host-claims", E2E),
     ("authorizationHeaderName", CONST, r'pub const AUTHORIZATION_HEADER\s*:\s*&str\s*=\s*"([^"]*)"\s*;', "str", "x-ms-azure-host-authorization", E2E),
     ("dateHeaderName", CONST, r'pub const DATE_HEADER\s*:\s*&str\s*=\s*"([^"]*)"\s*;', "str", "x-ms-azure-host-date", E2E),
+    ("wireServerIpNetworkByteOrder", CONST, r"pub const WIRE_SERVER_IP_NETWORK_BYTE_ORDER\s*:\s*u32\s*=\s*(0x[0-9A-Fa-f]+)\s*;", "hex", 0x10813FA8, ["C06"]),
+    ("imdsIpNetworkByteOrder", CONST, r"pub const IMDS_IP_NETWORK_BYTE_ORDER\s*:\s*u32\s*=\s*(0x[0-9A-Fa-f]+)\s*;", "hex", 0xFEA9FEA9, ["C06"]),
+    ("proxyAgentIpNetworkByteOrder", CONST, r"pub const PROXY_AGENT_IP_NETWORK_BYTE_ORDER\s*:\s*u32\s*=\s*(0x[0-9A-Fa-f]+)\s*;", "hex", 0x100007F, ["C06"]),
     ("telemetryMaxMessageSize", "proxy_agent/src/telemetry/event_reader.rs",
      r"const MAX_MESSAGE_SIZE\s*:\s*usize\s*=\s*([0-9_ *]+);", "prod", 65536, ["C18"]),
     ("eventMaxMessageLength", "proxy_agent_shared/src/telemetry/event_logger.rs",
@@ -75,6 +78,8 @@ def parse_value(kind, text):
         return int(text.replace("_", ""))
     if kind == "str":
         return text
+    if kind == "hex":
+        return int(text, 16)
     if kind == "prod":
         v = 1
         for part in text.replace("_", "").split("*"):
@@ -85,7 +90,7 @@ def parse_value(kind, text):
 
 
 def lean_value(kind, v):
-    if kind in ("nat", "prod"):
+    if kind in ("nat", "prod", "hex"):
         return "Nat", str(v)
     if kind == "str":
         return "String", json.dumps(v)
